@@ -20,6 +20,7 @@ func init() {
 		Assumptions: []string{"proto.Clone returns a deep copy; proto.Merge(dst, src) deep-copies from src and writes only dst; fmutils.Filter/Prune and proto.Reset write only their message argument"},
 		Run:         runC07,
 		Controls: []Control{
+			{Name: "interceptor-copies-the-stored-total", Silent: true, File: "pkg/trait/enterleavesensorpb/model.go", Old: "\t\t\tif inc {\n\t\t\t\tcv++\n\t\t\t}\n\t\t\treturn &cv", New: "\t\t\tif !inc && cur != nil {\n\t\t\t\tkeep := *cur\n\t\t\t\treturn &keep\n\t\t\t}\n\t\t\tif inc {\n\t\t\t\tcv++\n\t\t\t}\n\t\t\treturn &cv"},
 			{Name: "interceptor-hands-the-stored-total-to-the-writer", File: "pkg/trait/enterleavesensorpb/model.go", Old: "\t\t\tif inc {\n\t\t\t\tcv++\n\t\t\t}\n\t\t\treturn &cv", New: "\t\t\tif !inc && cur != nil {\n\t\t\t\treturn cur\n\t\t\t}\n\t\t\tif inc {\n\t\t\t\tcv++\n\t\t\t}\n\t\t\treturn &cv", Expect: "R07.9"},
 			{Name: "create-booking-returns-the-callers-message", File: "pkg/trait/bookingpb/model.go", Old: "\treturn msg.(*traits.Booking), err\n}\n\nfunc (m *Model) UpdateBooking", New: "\treturn booking, err\n}\n\nfunc (m *Model) UpdateBooking", Expect: "R07.10"},
 			{Name: "first-write-uses-the-callers-message-via-reflection", File: "pkg/resource/opt.go", Old: "\t\t\tdst = value.ProtoReflect().New().Interface()\n", New: "\t\t\tdst = value.ProtoReflect().Interface()\n", Expect: "R07.2"},
